@@ -173,7 +173,9 @@ def prepare_haplotag_information(
     # maps read name to (haplotype, quality, phaseset)
     read_to_haplotype = {}
 
-    for sample in shared_samples:
+    # shared_samples is a set: iterate in a defined order, because a read name that occurs in
+    # several samples is assigned by the sample processed last
+    for sample in sorted(shared_samples):
         variantpos_to_phaseinfo, variants = get_variant_information(variant_table, sample)
         read_set, _ = phased_input_reader.read(
             variant_table.chromosome, variants, sample, regions=regions
